@@ -234,6 +234,16 @@ pub fn integrity(p: &StdPair) -> Vec<(String, String)> {
             }
         }
     }
+    // datagram send-queue accounting: an empty queue accounts for zero bytes, and the reported free
+    // space is the configured bound minus what is accounted
+    for (node, who) in [(CLIENT, "client"), (SERVER, "server")] {
+        for sl in p.w.nodes[node].conns.values() {
+            let pr = sl.conn.verif_probe();
+            if pr.datagram_outgoing == 0 && pr.datagram_outgoing_total != 0 {
+                out.push(("dgram-accounting".into(), format!("{who}: the datagram send queue is empty but accounts for {} bytes", pr.datagram_outgoing_total)));
+            }
+        }
+    }
     out
 }
 
